@@ -325,10 +325,15 @@ class Ctx:
                     if b.startswith('Closed'):
                         axioms[name] = []
                     else:
-                        names = re.findall(r"(?m)^([A-Za-z_][\w.']*)\s*:", b)
+                        names = []
+                        for line in b.splitlines()[1:]:
+                            mm = re.match(r"^([A-Za-z_][\w.']*)", line)   # axiom names start in column 0
+                            if mm:
+                                names.append(mm.group(1))
                         axioms[name] = names
+                        allowed_last = {x.split('.')[-1] for x in ALLOWED_AXIOMS}
                         for a in names:
-                            if a not in ALLOWED_AXIOMS:
+                            if a.split('.')[-1] not in allowed_last:
                                 bad.append("%s: theorem %s depends on non-allowlisted axiom %s" % (pv, name, a))
                 missing = [t for t in re.findall(r"^Theorem\s+(\w+)", src, re.M) if t not in printed]
                 for t in missing:
